@@ -643,3 +643,35 @@ def lift_name(d):
     if d not in _NAMES:
         _NAMES[d] = z3.Int(f"dim_{d}")
     return _NAMES[d]
+
+
+@family("distributions/standard_samplers", ["C05", "C04", "C06"])
+def standard_samplers(ctx):
+    """every standard base draws from ITS OWN family with the caller's key and the distribution's shape (T3: jax.random.<family>
+    draws from the standard member of that family; which member is called, with which key and shape, is decided here)"""
+    it = ctx.interp
+    props = ["C05", "C04", "C06"]
+    FAM = {"StandardNormal": "normal", "_StandardUniform": "uniform", "_StandardGumbel": "gumbel", "_StandardCauchy": "cauchy", "_StandardStudentT": "t",
+           "_StandardLaplace": "laplace", "_StandardExponential": "exponential", "_StandardLogistic": "logistic"}
+    rec = []
+    for fam in set(FAM.values()):
+        it.lib.overrides[f"jax.random.{fam}"] = (lambda fam: (lambda key, *a, **k: rec.append((fam, key, a, k)) or ("draw", fam)))(fam)
+    for cname, fam in sorted(FAM.items()):
+        cls = it.repo_class(f"{MOD}.{cname}")
+        shape = ("event-shape",)
+        fields = dict(shape=shape)
+        if cname == "_StandardStudentT":
+            fields["df"] = "df"
+        o = Obj(cls, **fields)
+        del rec[:]
+        paths = it.explore(lambda: method(cls, "_sample")(o, "key", None))
+        q = f"{MOD}.{cname}._sample"
+        p = single(paths, ctx, f"C05/{cname}._sample/struct/straight_line", props, q)
+        if p is None:
+            continue
+        ok = len(rec) == 1 and rec[0][0] == fam and rec[0][1] == "key" and p.value == ("draw", fam)
+        shp = (rec[0][3].get("shape", rec[0][2][0] if rec[0][2] else None)) if rec else None
+        ctx.oblige(f"C05/{cname}._sample/post/draws_from_its_own_family_with_the_given_key", bool(ok), [], props, kind="struct", fn=q, replay=dict(kind="c05", vars={}), note=f"recorded jax.random calls: {[(r[0], r[1]) for r in rec]}")
+        ctx.oblige(f"C05/{cname}._sample/post/sample_has_the_distribution_shape", shp is shape, [], props, kind="struct", fn=q, replay=dict(kind="c05", vars={}))
+        if cname == "_StandardStudentT":
+            ctx.oblige("C05/_StandardStudentT._sample/post/uses_its_degrees_of_freedom", bool(rec) and rec[0][3].get("df", None) == "df", [], props, kind="struct", fn=q)
